@@ -35,6 +35,21 @@ def bind_repo():
     """Make sure pyxform is imported from the tree under verification."""
     if sys.path[0] != REPO:
         sys.path.insert(0, REPO)
+    if os.environ.get("VERIF_SCHEDLOCK") == "1" and "pyxform" not in sys.modules:
+        # C14: module-level locks created while pyxform is imported become scheduler-aware
+        # (xmc.sched); all sub-modules are imported now so that no lazy import happens in a thread.
+        import pkgutil
+
+        from xmc import sched
+
+        with sched.lock_shim():
+            import pyxform
+
+            for m in pkgutil.walk_packages(pyxform.__path__, "pyxform."):
+                try:
+                    importlib.import_module(m.name)
+                except Exception:  # noqa: BLE001  (optional sub-modules)
+                    pass
     import pyxform
 
     f = os.path.realpath(pyxform.__file__)
